@@ -814,6 +814,11 @@ let fill_range buf lo hi v =
               (app (firstn lo buf)
                 (app (repeat v (sub hi lo)) (skipn hi buf)))
 
+(** val fill_if : bytes -> nat -> nat -> n -> ('a1, bytes) res **)
+
+let fill_if buf lo hi v =
+  if Nat.ltb lo hi then fill_range buf lo hi v else Ok buf
+
 (** val with_sub :
     bytes -> nat -> nat -> (bytes -> ('a1, 'a2 * bytes) res) -> ('a1,
     'a2 * bytes) res **)
@@ -2020,10 +2025,8 @@ let app_write_unchecked c buf =
       bind (copy_into buf1 (S (S (S (S (S (S (S (S O)))))))) e c.app_c_name)
         (fun buf2 ->
         bind
-          (if Nat.ltb e (S (S (S (S (S (S (S (S (S (S (S (S O))))))))))))
-           then fill_range buf2 e (S (S (S (S (S (S (S (S (S (S (S (S
-                  O)))))))))))) N0
-           else Ok buf2) (fun buf3 ->
+          (fill_if buf2 e (S (S (S (S (S (S (S (S (S (S (S (S O))))))))))))
+            N0) (fun buf3 ->
           let e0 =
             add (S (S (S (S (S (S (S (S (S (S (S (S O))))))))))))
               (length c.app_c_data)
@@ -2143,6 +2146,23 @@ let rec bye_write_sources ss i buf =
     bind (copy_into buf i (add i (S (S (S (S O))))) (be32 s)) (fun buf0 ->
       bye_write_sources ss' (add i (S (S (S (S O))))) buf0)
 
+(** val bye_write_reason : bytes -> nat -> bytes -> (nat * bytes) wres **)
+
+let bye_write_reason r i buf =
+  match r with
+  | [] -> Ok (i, buf)
+  | _ :: _ ->
+    let rl = length r in
+    bind
+      (set_at buf i
+        (N.modulo (N.of_nat rl) (Npos (XO (XO (XO (XO (XO (XO (XO (XO
+          XH))))))))))) (fun buf0 ->
+      let i0 = add i (S O) in
+      let e = add i0 rl in
+      bind (copy_into buf0 i0 e r) (fun buf1 ->
+        let e0 = pad4 e in
+        bind (fill_if buf1 e e0 N0) (fun buf2 -> Ok (e0, buf2))))
+
 (** val bye_write_unchecked : bye_cfg -> bytes -> (nat * bytes) wres **)
 
 let bye_write_unchecked c buf =
@@ -2153,23 +2173,7 @@ let bye_write_unchecked c buf =
     let (i0, buf0) = pat in
     bind (bye_write_sources c.bye_c_sources i0 buf0) (fun pat0 ->
       let (i, buf1) = pat0 in
-      bind
-        (match c.bye_c_reason with
-         | [] -> Ok (i, buf1)
-         | n0 :: l ->
-           let r = n0 :: l in
-           let rl = length r in
-           bind
-             (set_at buf1 i
-               (N.modulo (N.of_nat rl) (Npos (XO (XO (XO (XO (XO (XO (XO (XO
-                 XH))))))))))) (fun buf2 ->
-             let i1 = add i (S O) in
-             let e = add i1 rl in
-             bind (copy_into buf2 i1 e r) (fun buf3 ->
-               let e0 = pad4 e in
-               bind
-                 (if Nat.ltb e e0 then fill_range buf3 e e0 N0 else Ok buf3)
-                 (fun buf4 -> Ok (e0, buf4))))) (fun pat1 ->
+      bind (bye_write_reason c.bye_c_reason i buf1) (fun pat1 ->
         let (e, buf2) = pat1 in
         bind (with_tail buf2 e (write_padding_unchecked c.bye_c_padding))
           (fun pat2 -> let (p, buf3) = pat2 in Ok ((add e p), buf3)))))
@@ -2496,8 +2500,7 @@ let chunk_write_unchecked c buf =
     bind (items_write c.ch_c_items (S (S (S (S O)))) buf0) (fun pat ->
       let (i, buf1) = pat in
       let e = pad4 (add i (S O)) in
-      bind (if Nat.ltb i e then fill_range buf1 i e N0 else Ok buf1)
-        (fun buf2 -> Ok (e, buf2))))
+      bind (fill_if buf1 i e N0) (fun buf2 -> Ok (e, buf2))))
 
 (** val chunks_calc : chunk_cfg list -> nat wres **)
 
